@@ -212,6 +212,7 @@ class Eval:
         self.first_keys = set()
         self.inline_key_classes = collections.Counter()
         self.domain_classes = collections.Counter()
+        self.via_classes = collections.Counter()
         self.edge_classes = collections.Counter()
         self.refused = collections.Counter()
         self.history = collections.Counter()
@@ -290,6 +291,30 @@ class Eval:
                 chk.extra["model_drift"] = chk.extra.get("model_drift", 0) + 1
         else:
             chk.violation(rt_signature(enc, enc_v, dec_v), detail)
+
+    def via(self, enc, enc_v, dec, dec_v):
+        """DecodeVia: decode through a Stream value (or a document) whose stored content carries a filter chain must be decode of
+        the plain bytes: decode(encode(x)) = x whatever container holds the bytes."""
+        chk = self.chk
+        via, chain = dec["via"], dec["filters"]
+        filtered = chain not in ("none", "empty-array")
+        self.via_classes[(via, chain)] += 1
+        if enc_v.get("dom", {}).get("cls") != "core":
+            return
+        chk.case(json.dumps([via, chain, enc["bytes"]]))
+        if dec_v["rt"].startswith("ok"):
+            chk.traces += 1
+            return
+        detail = {"class": enc["cls"], "origin": "stream-driver", "via": via, "filters": chain, "ops": enc["ops"],
+                  "plain_bytes_ascii": bytes(enc["bytes"]).decode("latin-1")[:300], "decode_result": dec["res"], "decoded": dec["ops"],
+                  "roundtrip": dec_v["rd"]}
+        if filtered and ("decode_content" in via or via.startswith("modify-loop")) and dec["res"] == "ok":
+            # Stream::decode_content parsed the stored (filtered) bytes: narrow class -- a filter is present, the call is
+            # decode_content (directly or inside the modify loop) and it returned Ok with other operations
+            chk.violation("C14:stream.decode_content.filters-ignored", detail)
+        else:
+            short = via.split("(")[0].split(";")[-1]
+            chk.violation("C14:via.%s[%s].%s" % (short, chain, dec_v["rt"]), detail)
 
     def given_decode(self, given, given_v, dec, dec_v):
         """Decode of content lopdf did not write.  Producer content: observation only (the property quantifies over
@@ -400,6 +425,10 @@ def evaluate(ev, recs, verdicts, origin):
                 i += 2
             else:
                 ev.roundtrip(r, v, None, None, origin)
+                i += 1
+            # the same bytes decoded through a Stream value / a document under filter chains
+            while i < n and recs[i]["ev"] == "DecodeVia":
+                ev.via(r, v, recs[i], verdicts[i])
                 i += 1
             continue
         raise vlib.ToolError("unexpected event order at record %d: %s" % (i, r["ev"]))
@@ -658,6 +687,8 @@ def run(tier):
         sin, th = os.path.join(w, "schedules.ndjson"), os.path.join(w, "history.ndjson")
         write_ndjson(sin, sch)
         run_bin("c14", ["history", "--seed", sd, "--in", sin, "--out", th, "--reps", 64])
+        ts = os.path.join(w, "streams.ndjson")
+        run_bin("c14", ["streams", "--seed", sd, "--n", 8 if quick else 150, "--out", ts])
         # nesting at both limits on a 2 MiB thread of a supervised worker: optimised and unoptimised build
         dbg = build_debug_worker()
         rel = os.path.join(vlib.build_harness("c14"), "c14")
@@ -666,11 +697,11 @@ def run(tier):
             td = os.path.join(w, "deep-%s.ndjson" % label)
             run_bin("c14", ["deep", "--exe", exe, "--label", label, "--stack", 2 << 20, "--out", td])
             deep += read_ndjson(td)
-        return read_ndjson(tr), read_ndjson(ti), read_ndjson(th), deep
+        return read_ndjson(tr), read_ndjson(ti), read_ndjson(th), deep, read_ndjson(ts)
 
     with ThreadPoolExecutor(max_workers=3) as ex:
         f_gen, f_cov, f_rec = ex.submit(gen), ex.submit(cov), ex.submit(rec)
-        gens, _, (recs_v, recs_i, recs_h, recs_d) = f_gen.result(), f_cov.result(), f_rec.result()
+        gens, _, (recs_v, recs_i, recs_h, recs_d, recs_s) = f_gen.result(), f_cov.result(), f_rec.result()
 
     produced = []
     for r, cases in gens:
@@ -687,9 +718,9 @@ def run(tier):
     ev = Eval(chk)
     chunks = 1 if quick else 12
     jobs = [("c14-v", recs_v, "lopdf"), ("c14-i", recs_i, "harness-inline"), ("c14-p", recs_p, "tla-producer"),
-            ("c14-d", recs_d, "deep-worker")]
+            ("c14-d", recs_d, "deep-worker"), ("c14-s", recs_s, "stream-driver")]
     resets = [i for i, r in enumerate(recs_h) if r["ev"] == "Reset"]
-    with ThreadPoolExecutor(max_workers=5) as ex:
+    with ThreadPoolExecutor(max_workers=6) as ex:
         f_h = ex.submit(judge, recs_h, "c14-h", chunks, resets)
         judged = list(ex.map(lambda j: judge(j[1], j[0], chunks, case_starts(j[1])), jobs))
         vs_h, st_h, tr_h = f_h.result()
@@ -749,6 +780,14 @@ def run(tier):
     for lbl in ("debug", "release"):
         if not any(r["ev"] == "Encode" and r["cls"] == "deep.%s.arr.48x100" % lbl for r in recs_d):
             vac.append("no %s-profile decode of 48 arrays around 100 parentheses" % lbl)
+    for chain in ("none", "compress()", "empty-array", "flate", "a85", "ahx", "a85+flate", "ahx+flate"):
+        for via in ("Stream::decode_content", "modify-loop.set_plain_content", "Document::get_and_decode_page_content(save;load)",
+                    "Stream::decode_content(save;load)"):
+            if ev.via_classes[(via, chain)] < 3:
+                vac.append("decode via %s under %s: %d cases" % (via, chain, ev.via_classes[(via, chain)]))
+    if ev.via_classes[("add_to_page_content;compress;save;load;Stream::decode_content", "Document::compress")] < 3:
+        vac.append("add_to_page_content + Document::compress path with a compressed stream: fewer than 3 cases")
+    chk.extra["decode_via"] = {"%s | %s" % k: n for k, n in sorted(ev.via_classes.items())}
     chk.extra["domain_classes"] = dict(ev.domain_classes)
     chk.extra["encode_refusals"] = dict(ev.refused)
     chk.extra["edge_classes"] = {k: n for k, n in sorted(ev.edge_classes.items())
